@@ -176,6 +176,10 @@ func init() {
 		}
 		return tuple{n, iface{}}
 	}
+	nativeHooks["*interp.memHandle.ReadFrom"] = func(fr *frame, recv any, args []value) value {
+		// the portable path of (*os.File).ReadFrom: io.Copy through a wrapper without ReadFrom
+		return fr.i.callByName(fr, "os.genericReadFrom", []value{native{v: recv.(*memHandle)}, args[0]})
+	}
 	nativeHooks["*interp.memHandle.Close"] = func(fr *frame, recv any, args []value) value {
 		h := recv.(*memHandle)
 		if h == nil {
